@@ -116,6 +116,9 @@ func scenarios(tier string) []*Scenario {
 	// mocks sharing method objects: the same interface twice and an embedded interface next to its embedder
 	add(Scenario{Args: []string{"Base", "Emb:EmbeddedMock", "Base:BaseTwo"}})
 	add(Scenario{Args: []string{"Emb:EmbeddedMock", "Base", "Schema", "Schema:SecondSchemaMock"}, Stub: true, Resets: true})
+	// alias-declared interface literals with same-named methods (shared full method names)
+	add(Scenario{Args: []string{"AliasA", "AliasB"}})
+	add(Scenario{Args: []string{"AliasB", "AliasA"}, Stub: true, SkipEnsure: true, Resets: true})
 	// witnesses of known findings (see /verif/KNOWN_FINDINGS.jsonl)
 	add(Scenario{Src: "kfcomparable", Args: []string{"Keyed"}, OnlyProps: []string{"C09"}})
 	return out
@@ -325,7 +328,7 @@ type mockInfo struct {
 	sc       *Scenario
 	pkg      *packages.Package
 	srcPkg   *types.Package
-	iface    *types.Named
+	iface    types.Type // *types.Named, or the interface literal behind an alias declaration
 	ifaceArg string
 	mockName string
 	mock     *types.Named
@@ -501,9 +504,12 @@ func (s2 *Stage2) checkScenario(sc *Scenario) {
 		}
 		order = append(order, mo.Pos())
 		mi := &mockInfo{sc: sc, pkg: dst, srcPkg: srcTypes, ifaceArg: in, mockName: mn}
-		mi.iface, _ = io.Type().(*types.Named)
+		mi.iface = types.Unalias(io.Type())
 		mi.mock, _ = mo.Type().(*types.Named)
 		if mi.iface == nil || mi.mock == nil {
+			continue
+		}
+		if _, isIface := mi.iface.Underlying().(*types.Interface); !isIface {
 			continue
 		}
 		s2.checkMockTypes(mi)
@@ -585,7 +591,11 @@ func (s2 *Stage2) checkMockTypes(mi *mockInfo) {
 	mock := mi.mock
 	var ifaceT types.Type = iface
 	var mockT types.Type = mock
-	itp, mtp := iface.TypeParams(), mock.TypeParams()
+	var itp *types.TypeParamList
+	if n, ok := iface.(*types.Named); ok {
+		itp = n.TypeParams()
+	}
+	mtp := mock.TypeParams()
 	s2.tob(sc, pfx+"type-param-count", []string{"C09"}, itp.Len() == mtp.Len(), fmt.Sprintf("interface has %d type parameters, mock %d", itp.Len(), mtp.Len()))
 	if itp.Len() != mtp.Len() {
 		return
@@ -615,7 +625,7 @@ func (s2 *Stage2) checkMockTypes(mi *mockInfo) {
 		for i := 0; i < mtp.Len(); i++ {
 			margs = append(margs, mtp.At(i))
 		}
-		_, err2 := types.Instantiate(types.NewContext(), iface, margs, true)
+		_, err2 := types.Instantiate(types.NewContext(), iface.(*types.Named), margs, true)
 		if err2 != nil {
 			okCons = false
 		}
@@ -1077,7 +1087,12 @@ func (h *mockHooks) OnInvoke(e *Exec, st *State, ci ssa.CallInstruction, fn SV, 
 }
 
 func (h *mockHooks) OnForbidden(e *Exec, st *State, in ssa.Instruction, what string) {
-	h.ob(st, "no-go-defer-recover", BoolLit(false), "generated function contains "+what+" at "+e.ld.pos(in.Pos()))
+	switch what {
+	case "go", "defer", "*ssa.Select", "*ssa.Send", "builtin recover":
+		h.ob(st, "no-go-defer-recover", BoolLit(false), "generated function contains "+what+" at "+e.ld.pos(in.Pos()))
+	default:
+		h.ob(st, "within-verified-subset", BoolLit(false), "generated function uses "+what+" at "+e.ld.pos(in.Pos())+", which the contract schema does not cover: nothing is proved about this function")
+	}
 	st.aborted = "forbidden"
 }
 
